@@ -83,6 +83,10 @@ quick.append(job("c13.svr", secs=60, allow=AL, n=3, symx=0, x0=0, x1=1, x2=2))
 quick.append(job("c13.svr", secs=90, allow=AL, n=3, symx=0, x0=1, x1=3, x2=5))
 quick.append(job("c13.svr", secs=150, allow=AL, n=3, symx=0, x0=-2, x1=0, x2=2, c=8, loss=1))
 quick.append(job("c13.svr", secs=60, allow=AL, qto=500, n=2, symx=1))
+# epsilon-SVR with shrinking on (the linear term p differs per variable here, unlike in classification)
+quick.append(job("c13.svr", secs=120, allow=AL, n=3, symx=0, x0=0, x1=1, x2=2, shrink=1))
+quick.append(job("c13.svr", secs=120, allow=AL, n=3, symx=0, x0=1, x1=3, x2=5, shrink=1))
+quick.append(job("c13.svr", secs=150, allow=AL, n=3, symx=0, x0=-2, x1=0, x2=2, c=8, loss=1, shrink=1))
 
 thorough = list(quick)
 for pat in (5, 3, 6, 9):
